@@ -59,3 +59,13 @@ Definition unit_res_eqb (a b : res unit) : bool :=
   | Raise x, Raise y => Z.eqb x y
   | _, _ => false
   end.
+
+(* a match on the literal 4 is an equality test *)
+Lemma match4 {A} (a : Z) (x y : A) :
+  (match a with 4 => x | _ => y end) = if a =? 4 then x else y.
+Proof.
+  destruct a as [|p|p]; try reflexivity.
+  destruct p as [p|p|]; try reflexivity. destruct p as [p|p|]; try reflexivity.
+  destruct p; reflexivity.
+Qed.
+
